@@ -296,6 +296,10 @@ def run(prop: str, tier: str) -> int:
         for kind in KINDS:
             for fe in (1, 3, 10):
                 cases.append(one_kind(kind, 40, fe))
+        # ... the same while another connection in the process has fourteen loops of its own open: what this connection needs
+        # does not depend on that
+        for kind in ("nested", "loop", "foreach", "add-future"):
+            cases.append(dict(one_kind(kind, 40, 3), other_open=14))
         n = 24 if tier == "quick" else 500
         for k in range(n):
             cases.append(long_history(rng, rng.choice([100, 150, 250] if tier == "quick" else [150, 300, 400]), rng.choice([1, 3, 10])))
@@ -355,6 +359,6 @@ def replay_case(prop, case, tmp):
     from . import eng_host as H
     if "history" not in case:
         return None
-    row = H._run_case((1, {"history": case["history"], "meas": case["meas"]}, prop))
+    row = H._run_case((1, {"history": case["history"], "meas": case["meas"], **({"other_open": case["other_open"]} if case.get("other_open") else {})}, prop))
     res = H.validate(prop, [row], tmp)
     return res.verdicts[0][1] if res.verdicts else None
